@@ -423,6 +423,12 @@ def finish(prop, tier, seed, t0, cases, stats, theorems, broken, fails, nviol, c
         "broken_obligations": broken,
         "failures": fails[:10],
     }
+    try:
+        ptxt = open(os.path.join(COQ, "theories", "Props", prop.pid + ".v")).read()
+        cov["statements_not_proved"] = re.findall(r'^\s*Definition\s+(\w+_statement)\b', ptxt, re.M)
+        cov["refuted_statements"] = [n for n in theorems if n.endswith("_refuted")]
+    except OSError:
+        pass
     cov.update(getattr(prop, "extra_coverage", {}))
     if tier == "thorough" and not broken and not os.environ.get("VERIF_NO_COQCHK"):
         try:
